@@ -1,7 +1,10 @@
 (* Pipeline.v — model of publisher.go / subscription.go: a publisher fans
    every event out to its subscriptions; a subscription is a bounded FIFO
    (EventBufsiz) with non-blocking enqueue-or-drop-newest; a clone is a
-   publisher fed by what it reads from its own subscription.
+   publisher fed by what it reads from its own subscription.  A subscription
+   that was closed stays in the publisher's table until its unsubscribe is
+   handled: sending to it fails (the error is ignored) and the fan-out goes
+   on to the others; what it had buffered can still be received.
    Definitions only. *)
 From Coq Require Export List Arith Bool Lia.
 Export ListNotations.
@@ -14,20 +17,25 @@ Section Pipeline.
     s_cap : nat;            (* EventBufsiz *)
     s_queue : list E;       (* outch *)
     s_passed : list E;      (* what the consumer has received *)
-    s_drops : nat           (* events dropped because outch was full *)
+    s_drops : nat;          (* events dropped because outch was full *)
+    s_closed : option nat   (* Some k: closed when the publisher had published k events *)
   }.
 
   (* subscription.run: case evt := <-s.inch: select { case s.outch <- evt: default: } *)
   Definition push (e : E) (s : sub) : sub :=
-    if Nat.ltb (length (s_queue s)) (s_cap s)
-    then {| s_from := s_from s; s_cap := s_cap s; s_queue := s_queue s ++ [e]; s_passed := s_passed s; s_drops := s_drops s |}
-    else {| s_from := s_from s; s_cap := s_cap s; s_queue := s_queue s; s_passed := s_passed s; s_drops := S (s_drops s) |}.
+    match s_closed s with
+    | Some _ => s   (* sub.send returns ErrNotRunning; distributeEvent ignores it *)
+    | None =>
+      if Nat.ltb (length (s_queue s)) (s_cap s)
+      then {| s_from := s_from s; s_cap := s_cap s; s_queue := s_queue s ++ [e]; s_passed := s_passed s; s_drops := s_drops s; s_closed := None |}
+      else {| s_from := s_from s; s_cap := s_cap s; s_queue := s_queue s; s_passed := s_passed s; s_drops := S (s_drops s); s_closed := None |}
+    end.
 
   (* the consumer receives from Events() *)
   Definition pop (s : sub) : option (E * sub) :=
     match s_queue s with
     | [] => None
-    | e :: q => Some (e, {| s_from := s_from s; s_cap := s_cap s; s_queue := q; s_passed := s_passed s ++ [e]; s_drops := s_drops s |})
+    | e :: q => Some (e, {| s_from := s_from s; s_cap := s_cap s; s_queue := q; s_passed := s_passed s ++ [e]; s_drops := s_drops s; s_closed := s_closed s |})
     end.
 
   Record pub := { p_seen : list E; p_subs : list sub }.
@@ -41,7 +49,7 @@ Section Pipeline.
   (* publisher.createSubscription *)
   Definition subscribe (cap : nat) (p : pub) : pub :=
     {| p_seen := p_seen p;
-       p_subs := p_subs p ++ [{| s_from := length (p_seen p); s_cap := cap; s_queue := []; s_passed := []; s_drops := 0 |}] |}.
+       p_subs := p_subs p ++ [{| s_from := length (p_seen p); s_cap := cap; s_queue := []; s_passed := []; s_drops := 0; s_closed := None |}] |}.
 
   Fixpoint read_nth (i : nat) (l : list sub) : list sub :=
     match l, i with
@@ -52,13 +60,32 @@ Section Pipeline.
 
   Definition read (i : nat) (p : pub) : pub := {| p_seen := p_seen p; p_subs := read_nth i (p_subs p) |}.
 
-  Inductive pact := PPublish (e : E) | PSubscribe (cap : nat) | PRead (i : nat).
+  (* Subscription.Close(): lifecycle shutdown; run() returns and closes outch,
+     whose buffered events remain receivable *)
+  Definition close_sub (k : nat) (s : sub) : sub :=
+    match s_closed s with
+    | Some _ => s
+    | None => {| s_from := s_from s; s_cap := s_cap s; s_queue := s_queue s; s_passed := s_passed s; s_drops := s_drops s; s_closed := Some k |}
+    end.
+
+  Fixpoint close_nth (k i : nat) (l : list sub) : list sub :=
+    match l, i with
+    | [], _ => []
+    | s :: l', O => close_sub k s :: l'
+    | s :: l', S i' => s :: close_nth k i' l'
+    end.
+
+  Definition pclose (i : nat) (p : pub) : pub :=
+    {| p_seen := p_seen p; p_subs := close_nth (length (p_seen p)) i (p_subs p) |}.
+
+  Inductive pact := PPublish (e : E) | PSubscribe (cap : nat) | PRead (i : nat) | PClose (i : nat).
 
   Definition pstep (p : pub) (a : pact) : pub :=
     match a with
     | PPublish e => publish e p
     | PSubscribe cap => subscribe cap p
     | PRead i => read i p
+    | PClose i => pclose i p
     end.
 
   Definition prun (l : list pact) : pub := fold_left pstep l pub_init.
@@ -106,4 +133,11 @@ Arguments subseq {E}. Arguments expected_suffix {E}. Arguments chain_ok {E}. Arg
 Arguments leaf_passed {E}. Arguments total_skip {E}.
 Arguments s_from {E}. Arguments s_cap {E}. Arguments s_queue {E}. Arguments s_passed {E}. Arguments s_drops {E}.
 Arguments p_seen {E}. Arguments p_subs {E}.
-Arguments PPublish {E}. Arguments PSubscribe {E}. Arguments PRead {E}.
+Arguments PPublish {E}. Arguments PSubscribe {E}. Arguments PRead {E}. Arguments PClose {E}.
+Arguments s_closed {E}. Arguments close_sub {E}. Arguments pclose {E}.
+
+(* what the correspondence compares after an operation sequence: per
+   subscription, what its consumer has received, what is still queued and how
+   many events were dropped *)
+Definition prun_view (l : list (pact nat)) : list (list nat * list nat * nat) :=
+  map (fun s => (s_passed s, s_queue s, s_drops s)) (p_subs (prun l)).
